@@ -135,14 +135,15 @@ Proof.
 Qed.
 
 Lemma sel_map_commute (g : N -> N) n ws p :
-  length ws = n -> valid_row n p -> sel (map g ws) p = map g (sel ws p).
+  length ws = n -> wf_row n p -> sel (map g ws) p = map g (sel ws p).
 Proof.
-  intros HL (_ & _ & PR). unfold sel. rewrite map_map. apply map_ext_in. intros i Hi.
+  intros HL (_ & PR). unfold sel. rewrite map_map. apply map_ext_in. intros i Hi.
   rewrite Forall_forall in PR. specialize (PR i Hi). unfold nthN.
   rewrite (nth_indep (map g ws) 0 (g 0)) by (rewrite map_length; lia). apply map_nth.
 Qed.
 
-(* the ranking functions return the SAME outcome on the relabelled hand (no table contents involved) *)
+(* the ranking functions return the SAME outcome on the relabelled hand: no table contents involved, and the slot
+   tables only need five in-range indices per row *)
 Lemma relabel_same chk f n ws :
   suit_bijection f -> (n = 5 \/ n = 6 \/ n = 7)%nat -> HandN n ws ->
   hand_rank_value chk (map (relabel f) ws) = hand_rank_value chk ws.
@@ -150,12 +151,13 @@ Proof.
   intros Hf Hn H. pose proof H as (HL & HR & HN). unfold hand_rank_value, hrvh.
   rewrite map_length, HL. destruct Hn as [->|Hn].
   - exact (hrv5_relabel chk f ws Hf HL HR).
-  - destruct tables_valid as [T6 T7].
-    assert (G : forall perms, valid_table n perms ->
+  - destruct tables_wf as [T6 T7].
+    assert (G : forall perms, wf_table n perms ->
               rmap fst (hrvh_best chk perms (map (relabel f) ws)) = rmap fst (hrvh_best chk perms ws)).
-    { intros perms [_ TR]. rewrite !hrvh_best_value. apply best_fold_rel; [|reflexivity].
-      intros p Hp. destruct (sel_facts n ws p H (TR p Hp)) as (A & B & _ & _ & E).
-      destruct (sel_facts n _ p (relabel_handN f n ws Hf H) (TR p Hp)) as (_ & _ & _ & _ & E').
+    { intros perms TR. rewrite !hrvh_best_value. apply best_fold_rel; [|reflexivity].
+      intros p Hp. destruct (sel_real n ws p HL HR (TR p Hp)) as (A & B & E).
+      destruct (relabel_shape f ws Hf HR) as [HR' _].
+      destruct (sel_real n (map (relabel f) ws) p ltac:(now rewrite map_length) HR' (TR p Hp)) as (_ & _ & E').
       exists (sel ws p), (sel (map (relabel f) ws) p). split; [exact E|]. split; [exact E'|].
       rewrite (sel_map_commute (relabel f) n ws p HL (TR p Hp)). apply hrv5_relabel; assumption. }
     destruct Hn as [->| ->]; [exact (G _ T6) | exact (G _ T7)].
